@@ -15,6 +15,7 @@ from ..astutil import calls_in, dotted, name_stores, names_in, test_atoms, unpar
 from ..cfg import no_exc
 from ..report import Registry, chain, sub
 from ._helpers_rules_d import call_nodes, callee_is, guard_atom_set, kw
+from ._helpers_rob_i import position_of, positional_reads
 
 R = Registry(
     "C11",
@@ -133,18 +134,17 @@ def r1(ctx):
     pos_obj = {r.index("RM_OBJECTS") for r in roles if "RM_OBJECTS" in r}
     pos_type = {r.index("RM_TYPE") for r in roles if "RM_TYPE" in r}
     pos_ridx = {i for r in roles for i, x in enumerate(r) if x == "ridx"}
-    reads = {}
-    for n, v, s in name_stores(rd.node):
-        if isinstance(v, ast.Subscript) and isinstance(v.slice, ast.Constant) and isinstance(v.slice.value, int) and dotted(v.value) is not None:
-            reads[n] = v.slice.value
+    # the record local(s): whatever is looked up in the match map (`m[k]`, `m.get(k)`), by any spelling
+    reads = positional_reads(rd.node)
     # which local is which is determined by where it is yielded
     ys = [y.value for y in ast.walk(rd.node) if isinstance(y, ast.Yield) and isinstance(y.value, ast.Tuple)]
     ctx.require(len(ys) == 1 and len(ys[0].elts) == 7, "_merge_cols_by_name: single 7-tuple yield not found")
-    y = [dotted(e) for e in ys[0].elts]
-    good = pos_obj == {reads.get(y[5])} and pos_type == {reads.get(y[3])} and reads.get(y[1]) in pos_ridx and len(pos_obj) == 1
+    y = [position_of(e, reads) for e in ys[0].elts]
+    good = pos_obj == {y[5]} and pos_type == {y[3]} and y[1] in pos_ridx and len(pos_obj) == 1
+    shown = {unparse(ys[0].elts[i])[:24]: y[i] for i in (5, 3, 1)}
     ctx.check(good, f"{rd.key}:match-map-read-at-written-positions",
               f"_create_description_match_map writes objects/type/result-index at {sorted(pos_obj)}/{sorted(pos_type)}/{sorted(pos_ridx)} but _merge_cols_by_name reads "
-              f"{ {k: reads.get(k) for k in (y[5], y[3], y[1])} }: for name-matched (textual) statements column objects key another column", "objects@1 type@2 ridx@3 on both sides", rd.loc)
+              f"{shown}: for name-matched (textual) statements column objects key another column", "objects@1 type@2 ridx@3 on both sides", rd.loc)
 
 
 # ------------------------------------------------------------------------------------------ R2
